@@ -890,4 +890,24 @@ var corpus = []func(w *world){
 		w.get(hb("0001"))
 		w.get(hb("2005"))
 	},
+	// aliasing family (seeded C10-m6, fixed defect 3e911e6): extension keys stored by a batch are slices of
+	// the batch's key arrays; a later Get (append in getWithPath), a Put of a key extending a batch key
+	// and a Delete that merges extensions on the same in-memory trie must not rewrite other nodes
+	func(w *world) {
+		w.batch([]change{{key: hb("12013456"), val: []byte{1}}, {key: hb("12039abc"), val: []byte{2}}, {key: hb("12ff0577"), val: []byte{3}}})
+		w.get(hb("12013456"))
+		w.get(hb("12039abc"))
+		w.put(hb("1201345678"), []byte{4}) // extends the first batch key
+		w.get(hb("1201345678"))
+		w.get(hb("12039abc"))
+		w.get(hb("12ff0577"))
+		w.del(hb("12013456")) // extension merge over the longer key
+		w.get(hb("1201345678"))
+		w.put(hb("12039a"), []byte{5}) // forks inside the second key's tail
+		for _, k := range []string{"1201345678", "12039abc", "12039a", "12ff0577", "12013456"} {
+			w.get(hb(k))
+		}
+		w.root()
+		w.seek(nil, nil, false)
+	},
 }
